@@ -31,6 +31,25 @@ static int vf_read(char *buf, size_t max_size);
 static void vf_fatal(const char *msg) __attribute__((noreturn));
 /* environment choice point */
 static int vf_choose(int n, int kind);
+/* action operations: the action text (emitted per harness) asks which operation
+ * to perform, performs it with the scanner's own macro, and reports back so the
+ * reference model follows and the immediate observables are compared */
+static int vf_op(long leng);
+static int vf_arg_less(long leng);
+static int vf_arg_unput(void);
+static int vf_arg_sc(void);
+static void vf_did_less(int n, const char *text, long leng, int lineno);
+static void vf_did_unput(int c, const char *text, long leng, int lineno);
+static void vf_did_input(int c, int lineno);
+static void vf_did_more(void);
+static void vf_will_reject(void);
+static void vf_did_begin(int sc, int now);
+static void vf_did_push(int sc, int now);
+static void vf_will_pop(void);
+static void vf_did_pop(int now);
+static void vf_did_top(int top);
+static void vf_did_setbol(int v, int now);
+static void vf_did_return(void);
 
 #if !defined(VF_KEEP_ECHO) && !defined(VF_API_C99)
 #define yyecho() do { } while (0)
